@@ -225,7 +225,7 @@ def run_repro(case):
     res = Res()
     cfg = dict(case["cfg"])
     digs = {}
-    for r in (0, 1, 12345, 2 ** 31, 2 ** 32 - 1):
+    for r in case.get("seeds", (0, 1, 12345, 2 ** 31, 2 ** 32 - 1)):
         c = dict(cfg, random_state=r)
         out = []
         exc = None
@@ -526,6 +526,7 @@ def plan(ctx):
     ctx.explore("operation-sequences", seqs)
     rows = lattice.covering_array(FACTORS, strength=3 if th else 2, seed=ctx.seed)
     rep = [{"kind": "repro", "cfg": dict(r, n_particles=16, n_total=64, ll_rng=(i % 3 == 1))} for i, r in enumerate(rows)]  # every third row: the user's likelihood draws from the global generator too
+    rep += [{"kind": "repro", "cfg": dict(n_particles=2048, d=3, n_total=8192, eval="vec", clustering=cl, target="gauss" if not cl else "bimodal"), "seeds": [1, 12345]} for cl in (False, True)]  # bootstrap samples of > 2^15 points in the mode fits
     ctx.explore("reproducibility", rep)
     it = [{"kind": "iterpos", "cfg": dict(clustering=True, sample=k, resample=r, n_particles=16, n_total=64, target="bimodal")} for k in ("tpcn", "rwm") for r in ("mult", "syst")]
     ctx.explore("per-iteration-stream", it)
@@ -536,6 +537,9 @@ def plan(ctx):
                                           save_every=sv, output_dir="/memfs/c9", output_label="m")}
             for k in ("tpcn", "rwm") for r in ("mult", "syst") for ce in (2, 3) for t in ("bimodal", "gauss") for rs in (5, None) for sv in (None, 1, 2)
             if th or (hash((k, r, ce, t, rs, sv)) + ctx.seed) % 3 == 0]
+    from mc.pipeline import LARGE
+    big9 = [LARGE[1], LARGE[4], dict(n_particles=2048, d=3, n_total=8192, eval="vec", clustering=False, target="gauss"), dict(n_particles=4096, d=2, n_total=12288, eval="vec", clustering=True, target="bimodal")]
+    mid += [{"kind": "midrun", "cfg": dict(c, random_state=rs)} for c in big9 for rs in (5, None)]  # large scopes: pools of more than 8192 particles reach the mode fits
     ctx.explore("seeding-discipline", mid)
     rp = []
     for rs_ in (5, None):
